@@ -307,21 +307,12 @@ impl<const N: u32> PxE2<{ N }> {
     pub const fn from_i32(i_a: i32) -> Self {
         let sign = i_a.is_negative();
         // magnitude as u32: i32::MIN has no positive counterpart in i32
-        let i_a = i_a.unsigned_abs();
+        let a = i_a.unsigned_abs();
 
-        let ui_a = if (N == 2) && (i_a > 0) {
+        let ui_a = if (N == 2) && (a > 0) {
             0x_4000_0000
-        } else if i_a > 2_147_483_135 {
-            //2147483136 to 2147483647 rounds to P32 value (2147483648)=> 0x7FB00000
-            let mut ui_a = 0x_7FB0_0000; // 2147483648
-            if N < 10 {
-                ui_a &= Self::mask();
-            } else if N < 12 {
-                ui_a = 0x_7FF0_0000 & Self::mask();
-            }
-            ui_a
         } else {
-            convert_u32_to_px2bits::<{ N }>(i_a)
+            convert_u32_to_px2bits::<{ N }>(a)
         };
         Self::from_bits(u32_with_sign(ui_a, sign))
     }
@@ -426,7 +417,7 @@ const fn convert_u32_to_px2bits<const N: u32>(a: u32) -> u32 {
             }
         } else if k == (N - 5) {
             ui_a = (0x_7FFF_FFFF ^ (0x_3FFF_FFFF >> k)) | (exp_a << (27 - k));
-            mask = 0x8 << (k - N);
+            mask = 0x8 << (k + 32 - N);
             if ((mask & frac_a) != 0) && ((((mask - 1) & frac_a) | (exp_a & 0x1)) != 0) {
                 //bitNPlusOne
                 ui_a += 0x_8000_0000_u32 >> (N - 1);
@@ -434,7 +425,7 @@ const fn convert_u32_to_px2bits<const N: u32>(a: u32) -> u32 {
         } else {
             ui_a = ((0x_7FFF_FFFF ^ (0x_3FFF_FFFF >> k)) | (exp_a << (27 - k)) | frac_a >> (k + 4))
                 & PxE2::<{ N }>::mask();
-            mask = 0x8 << (k - N); //bitNPlusOne
+            mask = 0x8 << (k + 32 - N); //bitNPlusOne
             if ((mask & frac_a) != 0) && ((((mask - 1) & frac_a) | ((mask << 1) & frac_a)) != 0) {
                 ui_a += 0x_8000_0000_u32 >> (N - 1);
             }
